@@ -55,13 +55,25 @@ func newOSWorld(fsname, osname string, umask int, dirs []avfs.DirInfo) *osWorld 
 	avfs.SetUMask(fs.FileMode(umask))
 	t := osTypeOf(osname)
 	var b avfs.VFS
-	switch fsname {
-	case "memfs":
-		b = memfs.NewWithOptions(&memfs.Options{OSType: t, SystemDirs: dirs})
-	case "orefafs":
-		b = orefafs.NewWithOptions(&orefafs.Options{OSType: t, SystemDirs: dirs})
-	default:
-		panic("unsupported fs " + fsname)
+	func() {
+		// a constructor that panics (it can when the requested type was refused and the file system is left
+		// without a separator) is reported as a refused type
+		defer func() {
+			if r := recover(); r != nil {
+				b = nil
+			}
+		}()
+		switch fsname {
+		case "memfs":
+			b = memfs.NewWithOptions(&memfs.Options{OSType: t, SystemDirs: dirs})
+		case "orefafs":
+			b = orefafs.NewWithOptions(&orefafs.Options{OSType: t, SystemDirs: dirs})
+		default:
+			panic("unsupported fs " + fsname)
+		}
+	}()
+	if b == nil {
+		return &osWorld{fsWorld: &fsWorld{}, fsname: fsname, win: osname == "windows"}
 	}
 	w := &osWorld{fsWorld: &fsWorld{base: b}, fsname: fsname, win: osname == "windows", sep: "/", root: "/"}
 	if w.win {
@@ -74,7 +86,9 @@ func newOSWorld(fsname, osname string, umask int, dirs []avfs.DirInfo) *osWorld 
 	if fsname == "memfs" {
 		v0, err := b.Sub(w.root)
 		if err != nil {
-			panic(err)
+			// the type was accepted but the file system cannot resolve its own root (a foreign type on a build
+			// without the generic path functions): the base itself is the only view
+			v0 = b
 		}
 		w.views = []avfs.VFS{v0}
 	} else {
@@ -294,6 +308,9 @@ func runOSHistory(line string) string {
 	}
 	w := newOSWorld(hd[0], hd[1], atoi(hd[2]), dirs)
 	if len(w.views) == 0 {
+		if w.base == nil {
+			return "NOTYPE constructor-panic"
+		}
 		return "NOTYPE " + strconv.Itoa(int(w.base.OSType()))
 	}
 	mode := hd[3]
@@ -442,7 +459,7 @@ func runOSType(cfg config) {
 		hdr := fmt.Sprintf("memfs %s %d md5", osname, um)
 		w := newOSWorld("memfs", osname, um, nil)
 		if len(w.views) == 0 {
-			o.emit(hdr, "NOTYPE "+strconv.Itoa(int(w.base.OSType())), "")
+			o.emit(hdr, "NOTYPE", "")
 			continue
 		}
 		g := &fsGen{r: r, w: w.fsWorld, admin: i%2 == 0, nviews: 1}
@@ -485,6 +502,9 @@ func init() { commands["ostypeinfo"] = runOSTypeInfo }
 func osInfo(fsname, osname string) string {
 	w := newOSWorld(fsname, osname, 0o22, nil)
 	b := w.base
+	if b == nil {
+		return "refused constructor-panic"
+	}
 	if b.OSType() != osTypeOf(osname) {
 		// NewWithOptions ignores the error of SetOSType: the type and the separator keep their zero values
 		return fmt.Sprintf("refused type=%d sep=%d", int(b.OSType()), int(b.PathSeparator()))
@@ -534,6 +554,15 @@ func runOSTypeInfo(cfg config) {
 	tag := "notag"
 	if avfs.BuildFeatures()&avfs.FeatSetOSType != 0 {
 		tag = "tag"
+	}
+	if rl := cfg.replayLines(); rl != nil {
+		for _, l := range rl {
+			f := strings.Fields(l)
+			if len(f) == 4 && f[0] == "info" {
+				o.emit(fmt.Sprintf("info %s %s %s", f[1], f[2], tag), osInfo(f[1], f[2]), "")
+			}
+		}
+		return
 	}
 	for _, fsname := range []string{"memfs", "orefafs"} {
 		for _, osname := range []string{"linux", "windows"} {
